@@ -26,10 +26,12 @@ func init() {
 func genC10(r *core.Rand, run int) *MuxScenario {
 	sc := &MuxScenario{Prop: "C10", Knobs: genKnobs(r)}
 	sc.Knobs.MaxRecv = r.Pick(4096, 65536)
+	sc.Knobs.UnaryInt = r.Chance(1, 2) // the interceptors are scheduling points around the forwarders
+	sc.Knobs.StreamInt = r.Chance(1, 2)
 	sc.Local = []string{"larking.testpb.ChatRoom"} // TestService is only served by the backend
 	sc.Backends = []BackendSpec{{Tag: "b1", Services: []string{tsvc}}}
 	k := 1
-	if r.Chance(1, 4) {
+	if r.Chance(1, 3) {
 		k = 2 + r.Intn(2)
 	}
 	for i := 0; i < k; i++ {
